@@ -870,15 +870,128 @@ static void cfg_init_defaults(cfg_t *cfg)
 DLLIMPORT cfg_value_t *cfg_setopt(cfg_t *cfg, cfg_opt_t *opt, const char *value)
 {
 	cfg_value_t *val = NULL;
-	int b;
-	const char *s;
-	double f;
-	long int i;
-	void *p;
+	int b = 0;
+	const char *s = NULL;
+	double f = 0;
+	long int i = 0;
+	void *p = NULL;
 	char *endptr;
 
 	if (!cfg || !opt) {
 		errno = EINVAL;
+		return NULL;
+	}
+
+	/*
+	 * Convert the text first: a value that is refused must leave the
+	 * option, its old values and its flags exactly as they were.
+	 */
+	switch (opt->type) {
+	case CFGT_INT:
+		if (opt->parsecb) {
+			if ((*opt->parsecb) (cfg, opt, value, &i) != 0)
+				return NULL;
+		} else {
+			int radix;
+			const char *int_str;
+			if (!value) {
+				errno = EINVAL;
+				return NULL;
+			}
+			// Guess radix
+			radix = 0;
+			int_str = value;
+			if (value[0] == '0') {
+				switch (value[1]) {
+					case 'b':
+						radix = 2;
+						int_str = &value[2];
+						break;
+					case 'x':
+						radix = 16;
+						int_str = &value[2];
+						break;
+					default:
+						radix = 8;
+						int_str = &value[1];
+				}
+			}
+			i = strtol(int_str, &endptr, radix);
+			if (*endptr != '\0') {
+				cfg_error(cfg, _("invalid integer value for option '%s'"), opt->name);
+				return NULL;
+			}
+			if (errno == ERANGE) {
+				cfg_error(cfg, _("integer value for option '%s' is out of range"), opt->name);
+				return NULL;
+			}
+		}
+		break;
+
+	case CFGT_FLOAT:
+		if (opt->parsecb) {
+			if ((*opt->parsecb) (cfg, opt, value, &f) != 0)
+				return NULL;
+		} else {
+			if (!value) {
+				errno = EINVAL;
+				return NULL;
+			}
+			f = strtod(value, &endptr);
+			if (*endptr != '\0') {
+				cfg_error(cfg, _("invalid floating point value for option '%s'"), opt->name);
+				return NULL;
+			}
+			if (errno == ERANGE) {
+				cfg_error(cfg, _("floating point value for option '%s' is out of range"), opt->name);
+				return NULL;
+			}
+		}
+		break;
+
+	case CFGT_STR:
+		if (opt->parsecb) {
+			s = NULL;
+			if ((*opt->parsecb) (cfg, opt, value, &s) != 0)
+				return NULL;
+		} else {
+			s = value;
+		}
+
+		if (!s) {
+			errno = EINVAL;
+			return NULL;
+		}
+		break;
+
+	case CFGT_BOOL:
+		if (opt->parsecb) {
+			if ((*opt->parsecb) (cfg, opt, value, &b) != 0)
+				return NULL;
+		} else {
+			b = cfg_parse_boolean(value);
+			if (b == -1) {
+				cfg_error(cfg, _("invalid boolean value for option '%s'"), opt->name);
+				return NULL;
+			}
+		}
+		break;
+
+	case CFGT_PTR:
+		if (!opt->parsecb) {
+			errno = EINVAL;
+			return NULL;
+		}
+
+		if ((*opt->parsecb) (cfg, opt, value, &p) != 0)
+			return NULL;
+		break;
+
+	case CFGT_SEC:
+		break;
+
+	default:
+		cfg_error(cfg, "internal error in cfg_setopt(%s, %s)", opt->name, (value) ? (value) : "NULL");
 		return NULL;
 	}
 
@@ -931,8 +1044,11 @@ DLLIMPORT cfg_value_t *cfg_setopt(cfg_t *cfg, cfg_opt_t *opt, const char *value)
 
 			if (!val) {
 				val = cfg_addval(opt);
-				if (!val)
+				if (!val) {
+					if (opt->type == CFGT_PTR && p && opt->freecb)
+						opt->freecb(p);
 					return NULL;
+				}
 			}
 		} else {
 			val = opt->values[0];
@@ -941,83 +1057,14 @@ DLLIMPORT cfg_value_t *cfg_setopt(cfg_t *cfg, cfg_opt_t *opt, const char *value)
 
 	switch (opt->type) {
 	case CFGT_INT:
-		if (opt->parsecb) {
-			if ((*opt->parsecb) (cfg, opt, value, &i) != 0)
-				return NULL;
-		} else {
-			int radix;
-			const char *int_str;
-			if (!value) {
-				errno = EINVAL;
-				return NULL;
-			}
-			// Guess radix
-			radix = 0;
-			int_str = value;
-			if (value[0] == '0') {
-				switch (value[1]) {
-					case 'b':
-						radix = 2;
-						int_str = &value[2];
-						break;
-					case 'x':
-						radix = 16;
-						int_str = &value[2];
-						break;
-					default:
-						radix = 8;
-						int_str = &value[1];
-				}
-			}
-			i = strtol(int_str, &endptr, radix);
-			if (*endptr != '\0') {
-				cfg_error(cfg, _("invalid integer value for option '%s'"), opt->name);
-				return NULL;
-			}
-			if (errno == ERANGE) {
-				cfg_error(cfg, _("integer value for option '%s' is out of range"), opt->name);
-				return NULL;
-			}
-		}
 		val->number = i;
 		break;
 
 	case CFGT_FLOAT:
-		if (opt->parsecb) {
-			if ((*opt->parsecb) (cfg, opt, value, &f) != 0)
-				return NULL;
-		} else {
-			if (!value) {
-				errno = EINVAL;
-				return NULL;
-			}
-			f = strtod(value, &endptr);
-			if (*endptr != '\0') {
-				cfg_error(cfg, _("invalid floating point value for option '%s'"), opt->name);
-				return NULL;
-			}
-			if (errno == ERANGE) {
-				cfg_error(cfg, _("floating point value for option '%s' is out of range"), opt->name);
-				return NULL;
-			}
-		}
 		val->fpnumber = f;
 		break;
 
 	case CFGT_STR:
-		if (opt->parsecb) {
-			s = NULL;
-			if ((*opt->parsecb) (cfg, opt, value, &s) != 0)
-				return NULL;
-		} else {
-			s = value;
-		}
-
-		if (!s) {
-			errno = EINVAL;
-			return NULL;
-		}
-
 		free(val->string);
 		val->string = strdup(s);
 		if (!val->string)
@@ -1077,35 +1124,17 @@ DLLIMPORT cfg_value_t *cfg_setopt(cfg_t *cfg, cfg_opt_t *opt, const char *value)
 		break;
 
 	case CFGT_BOOL:
-		if (opt->parsecb) {
-			if ((*opt->parsecb) (cfg, opt, value, &b) != 0)
-				return NULL;
-		} else {
-			b = cfg_parse_boolean(value);
-			if (b == -1) {
-				cfg_error(cfg, _("invalid boolean value for option '%s'"), opt->name);
-				return NULL;
-			}
-		}
 		val->boolean = (cfg_bool_t)b;
 		break;
 
 	case CFGT_PTR:
-		if (!opt->parsecb) {
-			errno = EINVAL;
-			return NULL;
-		}
-
-		if ((*opt->parsecb) (cfg, opt, value, &p) != 0)
-			return NULL;
 		if (val->ptr && opt->freecb)
 			opt->freecb(val->ptr);
 		val->ptr = p;
 		break;
 
 	default:
-		cfg_error(cfg, "internal error in cfg_setopt(%s, %s)", opt->name, (value) ? (value) : "NULL");
-		return NULL;
+		break;
 	}
 
 	opt->flags |= CFGF_MODIFIED;
